@@ -8,7 +8,14 @@ ResultsWriter), and one command line run through click.testing.CliRunner in that
           at a node, undefined elsewhere);
   oracle  the STATEMENT evaluated directly with numpy on the files (own parser): nearest row / column by an
           explicit first-minimum search, labelled by the other axis; geotherm through nodes = the table entries;
-          between nodes on tables sampled from a known smooth function at two resolutions the error must shrink.
+          between nodes on tables sampled from a known smooth function at two (thorough: three) resolutions the error
+          must shrink by >= 8 per halving of the spacing (fourth order), and tables that ARE polynomials of degree <= 3 in
+          each variable must be reproduced to rounding (holds iff the spline is the interpolating bicubic spline:
+          Lean contract `ReproducesBicubicsOn`); two invocations in ONE process in different directories must each
+          answer from their own directory.
+Also compared with the real command: the SOURCE as translated on this run and interpreted by the model
+(`c19.src_*` ops: Generated/ExtractSpec.lean through CijModel/ExtractSrc.lean), options left out taking the click
+defaults read from the source; on 4x4 tables the model's spline `bicubic44` off the nodes.
 """
 from __future__ import annotations
 
@@ -26,7 +33,10 @@ ASSUMPTIONS = [
     "glob('{var}_tp_*')[0]: the directory contains only files produced by the writer, so exactly one name matches a documented variable "
     "name (Lean: variable_selects_its_file); glob order is filesystem dependent and is a parameter of the model; variable names contain no glob metacharacters",
     "scipy.interpolate.RectBivariateSpline (bicubic, s=0) is external: assumed to interpolate the table at its nodes (measured on every node case, "
-    "rel 1e-9 of the table's scale); convergence between nodes is monitored at two resolutions, not proved",
+    "rel 1e-9 of the table's scale) and to reproduce tables of degree <= 3 in each variable (measured on uniform writer grids and on "
+    "directly written non-uniform grids of every size >= 4x4, rel 1e-9); for 4x4 tables it is modelled exactly (tensor Lagrange form, "
+    "proved unique) and compared off the nodes; FITPACK's not-a-knot construction for larger tables is not modelled; convergence for "
+    "general smooth functions is measured (error ratio >= 8 per halving of the spacing on a fixed 23x23 lattice), not proved",
     "pandas.DataFrame.to_string is external: the real stdout is parsed; display.precision=17 is set in-process for most cases to read the values back at ~1e-15",
     "variables in one request are distinct; all tables of one directory share the (T,P) grid (they come from one run, C15)",
 ]
@@ -34,7 +44,9 @@ TRUSTED_EXTRA = ["C19: the stdout parser and the numpy oracle in harness/c19.py"
 
 VAL_RTOL = 1e-11       # printed with 17 decimals
 NODE_RTOL = 1e-9       # FITPACK at a node, relative to the table's scale
-DEFAULT_PRINT_RTOL = 2e-6
+DEFAULT_PRINT_ATOL = 6e-7   # pandas' default display: 6 decimals in fixed notation for the magnitudes of these tables (< 1e5)
+POLY_RTOL = 1e-9       # reproduction of a bicubic table, relative to the table's scale (observed ~1e-15)
+ORDER_RATIO = 8.0      # err(h) / err(h/2) for a smooth function (fourth order: 16 asymptotically; observed >= 11.3)
 
 # variable name a user types -> output keyword that produces its file (documented names)
 VAR_KEYWORD = {"bm_V": "bm_V", "bm_R": "bm_R", "bm_VRH": "bm_VRH", "G_V": "G_V", "G_R": "G_R", "G_VRH": "G_VRH",
@@ -50,33 +62,73 @@ def smooth_f(T, P, k):
     return (100.0 + 30.0 * k) + 40.0 * p - 25.0 * t + 12.0 * math.sin(1.3 * t + 0.4 * k) * math.cos(1.7 * p) + 9.0 * t * t * p
 
 
-def make_dir(case, d):
-    """write the tables of the scenario into d with the real writer; returns the variables available"""
-    sc = {"check": "write", "base": "tp", "grid": case["grid"], "data_seed": case["data_seed"],
-          "components": case["components"], "missing": ["pressures"]}
+def poly_coeffs(seed, k):
+    """16 coefficients of the polynomial of variable k (degree <= 3 in T/1000 and in P/100), values of scale ~100"""
+    r = numpy.random.Generator(numpy.random.PCG64([int(seed), int(k), 4444]))
+    c = r.normal(0.0, 20.0, size=(4, 4))
+    c[0, 0] += 150.0
+    return c
+
+
+def poly_f(T, P, k, seed):
+    c = poly_coeffs(seed, k)
+    t, p = T / 1000.0, P / 100.0
+    return float(sum(c[a, b] * t ** a * p ** b for a in range(4) for b in range(4)))
+
+
+def value_k(var):
+    """index of the function that fills the table of a (non-cij) variable"""
+    return W.VALUE_PROPS.index(W.DOC_BY_KW[VAR_KEYWORD[var]][3])
+
+
+def write_scenario(sc_case, d):
+    sc = {"check": "write", "base": "tp", "grid": sc_case["grid"], "data_seed": sc_case["data_seed"],
+          "components": sc_case["components"], "missing": ["pressures"]}
     stub, info = W.make_stub(sc)
-    if case.get("smooth"):
-        g = case["grid"]
+    fn = None
+    if sc_case.get("smooth"): fn = lambda t, p, k: smooth_f(t, p, k)
+    if sc_case.get("poly_seed") is not None: fn = lambda t, p, k: poly_f(t, p, k, sc_case["poly_seed"])
+    if fn is not None:
+        g = sc_case["grid"]
         T = [g["T_MIN"] + i * g["DT"] for i in range(g["NT"] + 4)]
         P = [g["P_MIN"] + j * g["DELTA_P"] for j in range(g["NTV"])]
         for k, prop in enumerate(W.VALUE_PROPS):
             if prop == "pressures": continue
             q = [x for x in W.DOC if x[3] == prop][0][5]
             fac = W.UNIT_FACTORS[q][W.DOC_UNIT[q]]
-            setattr(stub, prop, numpy.array([[smooth_f(t, p, k) / fac for p in P] for t in T]))
+            setattr(stub, prop, numpy.array([[fn(t, p, k) / fac for p in P] for t in T]))
+    stubs = [stub]
+    if sc_case.get("with_tv"):
+        # the (T,V) tables of the same run next to the (T,P) ones, as in a real results directory: `<var>_tv_<unit>.txt`
+        stubs.append(W.make_stub(dict(sc, base="tv", data_seed=int(sc_case["data_seed"]) + 1))[0])
     cwd = os.getcwd()
     try:
         os.chdir(d)
-        stub.write_variables(list(case["keywords"]))
+        for st in stubs: st.write_variables(list(sc_case["keywords"]))
     finally:
         os.chdir(cwd)
 
 
+def make_dir(case, d):
+    """write the tables of the scenario into d with the real writer (`second`: another run's tables on another grid in
+    the same directory; `direct`: tables written here, in the writer's layout, on arbitrary (non-uniform) axes)"""
+    if case.get("grid") is not None:
+        write_scenario(case, d)
+    if case.get("second"):
+        write_scenario(dict(case["second"], components=case["second"].get("components", [])), d)
+    for name, t in (case.get("direct") or {}).items():
+        with open(os.path.join(d, name), "w") as fp:
+            fp.write("T(K)\\P(GPa) " + " ".join(repr(float(x)) for x in t["cols"]) + "\n")
+            for r, row in zip(t["rows"], t["vals"]):
+                fp.write(repr(float(r)) + " " + " ".join("%.15e" % float(x) for x in row) + "\n")
+
+
 def parse_tables(d):
-    """own parser of the written files (not pandas.read_table): name -> (rows, cols, matrix)"""
+    """own parser of the written files (not pandas.read_table): name -> (rows, cols, matrix); also the (T,V) tables that
+    may lie next to the (T,P) ones (the model's directory listing contains them, no variable may select one)"""
     out = {}
     for name in sorted(os.listdir(d)):
-        if not name.endswith(".txt") or "_tp_" not in name: continue
+        if not name.endswith(".txt") or not ("_tp_" in name or "_tv_" in name): continue
         with open(os.path.join(d, name)) as fp:
             lines = [l.split() for l in fp.read().splitlines() if l.strip()]
         cols = [float(x) for x in lines[0][1:]]
@@ -92,7 +144,7 @@ def file_of(tables, var):
 
 
 # ----------------------------------------------------------------------------- the real commands
-def invoke(d, which, args, precision=17):
+def invoke(d, which, args, precision=17, via_group=False):
     import pandas
     from click.testing import CliRunner
     cwd = os.getcwd()
@@ -101,7 +153,10 @@ def invoke(d, which, args, precision=17):
         import warnings
         with warnings.catch_warnings():
             warnings.simplefilter("ignore")
-            if which == "extract":
+            if via_group:                       # `cij extract …` / `cij extract-geotherm …` as registered in cij/cli/cij.py
+                from cij.cli.cij import main as cmd
+                args = ["extract" if which == "extract" else "extract-geotherm"] + list(args)
+            elif which == "extract":
                 from cij.cli.extract import main as cmd
             else:
                 from cij.cli.geotherm import main as cmd
@@ -161,6 +216,11 @@ def close(a, b, rtol, scale):
     return bool(numpy.all(numpy.abs(a[m] - b[m]) <= rtol * scale)) if m.any() else True
 
 
+def eff(rtol, scale):
+    """relative tolerance to use with `close(…, scale)`; rtol None = values printed with pandas' default 6 decimals"""
+    return rtol if rtol is not None else DEFAULT_PRINT_ATOL * max(1.0, scale / 1e5) / scale
+
+
 def scale_of(tables, files):
     s = 1.0
     for f in files:
@@ -180,7 +240,7 @@ def run_case(ctx, case, res: Result, ops, pending, with_model=True):
             if case.get("T") is not None: args += ["-T", repr(float(case["T"]))]
             if case.get("P") is not None: args += ["-P", repr(float(case["P"]))]
             if case.get("hide"): args += ["-h"]
-            out, exc = invoke(d, "extract", args, precision=case.get("precision", 17))
+            out, exc = invoke(d, "extract", args, precision=case.get("precision", 17), via_group=bool(case.get("via_group")))
         else:
             gpath = os.path.join(d, "geotherm.in")
             names = case["geo_names"]
@@ -192,7 +252,7 @@ def run_case(ctx, case, res: Result, ops, pending, with_model=True):
             if case.get("tcol") is not None: args += ["--t-col", case["tcol"]]
             if case.get("pcol") is not None: args += ["--p-col", case["pcol"]]
             if case.get("hide"): args += ["-h"]
-            out, exc = invoke(d, "geotherm", args, precision=case.get("precision", 17))
+            out, exc = invoke(d, "geotherm", args, precision=case.get("precision", 17), via_group=bool(case.get("via_group")))
     finally:
         shutil.rmtree(d, ignore_errors=True)
     res.evaluations += 1
@@ -200,7 +260,11 @@ def run_case(ctx, case, res: Result, ops, pending, with_model=True):
     res.distribution["cmd"][case["cmd"] + (":" + case["kind"] if case.get("kind") else "")] += 1
     if out == "error":
         res.distribution.setdefault("errors", {}).setdefault(exc, 0); res.distribution["errors"][exc] += 1
-    rtol = VAL_RTOL if case.get("precision", 17) == 17 else DEFAULT_PRINT_RTOL
+    if case.get("via_group"):
+        res.distribution["via_group"] = res.distribution.get("via_group", 0) + 1
+    rtol = VAL_RTOL if case.get("precision", 17) == 17 else None      # None: absolute DEFAULT_PRINT_ATOL (see eff)
+    if rtol is None and any(bool(numpy.any((numpy.abs(t[2]) < 1e-5) & (t[2] != 0.0))) for t in tables.values()):
+        rtol = 2e-6       # a tiny non-zero entry makes pandas print the column in scientific notation (6 significant decimals)
     dir_json = [[n, {"rows": enc(t[0]), "cols": enc(t[1]), "vals": enc(t[2])}] for n, t in sorted(tables.items())]
 
     if case["cmd"] == "extract":
@@ -208,7 +272,7 @@ def run_case(ctx, case, res: Result, ops, pending, with_model=True):
         impl = "error" if out == "error" else parse_extract(out, nv, not case.get("hide"))
         # ---------------- oracle
         fail = None
-        if not case.get("expect_error"):
+        if not (case.get("expect_error") or case.get("oracle_skip")):
             files = [file_of(tables, v) for v in case["vars"]]
             if impl == "error":
                 fail = ("valid extract request failed", exc, "a table", "extract:raises")
@@ -229,7 +293,7 @@ def run_case(ctx, case, res: Result, ops, pending, with_model=True):
                         j = first_nearest(cs, case["P"]); want, lab, axis = vals[:, j], rows, "P"
                     if not close(idx, lab, 1e-12, max(1.0, max(map(abs, lab)))):
                         fail = (f"-{axis}: output is not labelled by the other coordinate", idx, list(lab), f"extract:-{axis}:labels")
-                    elif not close(cols[k], want, rtol, sc):
+                    elif not close(cols[k], want, eff(rtol, sc), sc):
                         fail = (f"-{axis}: column {case['vars'][k]} is not the nearest table {'row' if axis == 'T' else 'column'}",
                                 cols[k], list(map(float, want)), f"extract:-{axis}:values")
         if fail and len(res.oracle_failures) < 12 and fail[3] not in {f.site for f in res.oracle_failures}:
@@ -238,7 +302,8 @@ def run_case(ctx, case, res: Result, ops, pending, with_model=True):
             op = {"op": "c19.extract", "dir": dir_json, "vars": case["vars"]}
             if case.get("T") is not None: op["T"] = f2b(case["T"])
             if case.get("P") is not None: op["P"] = f2b(case["P"])
-            ops.append(op); pending.append((case, impl, tables, rtol))
+            ops.append(op); pending.append(("c19.extract", case, impl, tables, rtol))
+            ops.append(dict(op, op="c19.src_extract")); pending.append(("c19.src_extract", case, impl, tables, rtol))
         return
 
     # ---------------- geotherm
@@ -278,24 +343,41 @@ def run_case(ctx, case, res: Result, ops, pending, with_model=True):
                             fail = (f"geotherm through grid nodes: {case['vars'][k]} is not the table entry", got, want, "geotherm:nodes"); break
                     elif case["kind"] == "crossed":
                         pass    # option names read literally (--t-col T --p-col P): only model correspondence, see notes
+                    elif case["kind"] == "poly":
+                        # the table IS a polynomial of degree <= 3 in each variable: an interpolating bicubic spline returns it
+                        if case.get("direct"): want = [poly_f(t, p, case["direct"][f]["k"], case["poly_seed"]) for t, p in zip(Tg, Pg)]
+                        else: want = [poly_f(t, p, value_k(case["vars"][k]), case["poly_seed"]) for t, p in zip(Tg, Pg)]
+                        err = float(numpy.max(numpy.abs(numpy.array(got) - numpy.array(want)))) / sc if len(got) == len(want) else float("inf")
+                        st = res.distribution.setdefault("bicubic", {"tables": 0, "4x4": 0, "direct_nonuniform": 0, "points": 0, "max_rel_err": 0.0})
+                        st["tables"] += 1; st["points"] += len(want); st["max_rel_err"] = max(st["max_rel_err"], err)
+                        if len(rows) == 4 and len(cs) == 4: st["4x4"] += 1
+                        if case.get("direct"): st["direct_nonuniform"] += 1
+                        if not close(got, want, POLY_RTOL, sc):
+                            fail = (f"table of degree <= 3 in T and P is not reproduced between the nodes ({case['vars'][k]}): "
+                                    "the value is not that of the interpolating bicubic spline", got, want, "geotherm:bicubic-exact"); break
                     else:   # smooth tables: error against the generating function
-                        kk = W.VALUE_PROPS.index(W.DOC_BY_KW[VAR_KEYWORD[case["vars"][k]]][3])
+                        kk = value_k(case["vars"][k])
                         truth = [smooth_f(t, p, kk) for t, p in zip(Tg, Pg)]
                         err = float(numpy.max(numpy.abs(numpy.array(got) - numpy.array(truth))))
                         case.setdefault("_errors", []).append(err)
     if fail and len(res.oracle_failures) < 12 and fail[3] not in {f.site for f in res.oracle_failures}:
         res.oracle_failures.append(OracleFailure(what=fail[0], input=jsonable({k: v for k, v in case.items() if not k.startswith("_")}),
                                                  observed=jsonable(fail[1]), expected=jsonable(fail[2]), site=fail[3]))
-    if with_model and case["kind"] in ("nodes", "crossed"):
+    shapes44 = bool(tables) and all(len(t[0]) == 4 and len(t[1]) == 4 for t in tables.values())
+    if with_model and (case["kind"] in ("nodes", "crossed") or (case["kind"] == "poly" and shapes44)):
         op = {"op": "c19.geotherm", "dir": dir_json, "vars": case["vars"],
               "geo": [[n, enc(c)] for n, c in zip(case["geo_names"], case["geo_cols"])],
               "tcol": case["tcol"] if case.get("tcol") is not None else "P",
               "pcol": case["pcol"] if case.get("pcol") is not None else "T"}
-        ops.append(op); pending.append((case, impl, tables, rtol))
+        if case["kind"] == "poly": op["spline"] = "bicubic44"      # 4x4: the model's spline is defined off the nodes too
+        ops.append(op); pending.append(("c19.geotherm", case, impl, tables, rtol))
+        # the source as translated now; options that were not given are left out: click's defaults as read from the source
+        sop = dict(op, op="c19.src_geotherm", tcol=case.get("tcol"), pcol=case.get("pcol"))
+        ops.append(sop); pending.append(("c19.src_geotherm", case, impl, tables, rtol))
 
 
 def compare_model(res: Result, pending, answers):
-    for (case, impl, tables, rtol), ans in zip(pending, answers):
+    for (opname, case, impl, tables, rtol), ans in zip(pending, answers):
         clean = jsonable({k: v for k, v in case.items() if not k.startswith("_")})
         if case["cmd"] == "extract":
             if ans == "error" or impl == "error":
@@ -307,10 +389,10 @@ def compare_model(res: Result, pending, answers):
                 mcols = [[float("nan") if x is None else dec(x) for x in c[1]] for c in ans["cols"]]
                 sc = max([1.0] + [abs(x) for c in mcols for x in c if x == x])
                 ok = [c[0] for c in ans["cols"]] == case["vars"] and close(idx, midx, 1e-12, max([1.0] + [abs(x) for x in midx])) and \
-                    len(cols) == len(mcols) and all(close(a, b, rtol, sc) for a, b in zip(cols, mcols))
+                    len(cols) == len(mcols) and all(close(a, b, eff(rtol, sc), sc) for a, b in zip(cols, mcols))
                 note = "table"
             if ok: res.traces_validated += 1
-            else: res.disagreements.append(Disagreement("c19.extract", clean, jsonable(impl), jsonable(ans), note=note))
+            else: res.disagreements.append(Disagreement(opname, clean, jsonable(impl), jsonable(ans), note=note))
         else:
             if ans == "error" or impl == "error":
                 ok = (ans == "error") and (impl == "error")
@@ -322,7 +404,7 @@ def compare_model(res: Result, pending, answers):
                 ok = (names is None or names == mnames) and len(cols) == len(mcols) and \
                     all(close(a, b, NODE_RTOL, sc) for a, b in zip(cols, mcols))
             if ok: res.traces_validated += 1
-            else: res.disagreements.append(Disagreement("c19.geotherm", clean, jsonable(impl), jsonable(ans)))
+            else: res.disagreements.append(Disagreement(opname, clean, jsonable(impl), jsonable(ans)))
 
 
 # ----------------------------------------------------------------------------- generators
@@ -336,7 +418,9 @@ def gen_dir(rng, min_n=1):
     if "bm_V" not in kws: kws.append("bm_V")
     if "bm_VRH" not in kws: kws.append("bm_VRH")
     variables = [f"c{ij}{s}" for ij in comps for s in "st"] + [k for k in kws if not k.startswith("cij")]
-    return {"grid": g, "data_seed": int(rng.integers(0, 2 ** 31)), "components": comps, "keywords": kws}, variables
+    dsc = {"grid": g, "data_seed": int(rng.integers(0, 2 ** 31)), "components": comps, "keywords": kws}
+    if rng.random() < 0.4: dsc["with_tv"] = True
+    return dsc, variables
 
 
 def grid_axes(g):
@@ -374,6 +458,7 @@ def extract_cases(rng, n_dirs, per_dir):
             else: c["P"] = float(pick_request(rng, P))
             if rng.random() < 0.15: c["hide"] = True
             if rng.random() < 0.1: c["precision"] = None
+            if rng.random() < 0.15: c["via_group"] = True
             out.append(c)
         # both given: -T wins; malformed: neither, unknown variable
         out.append(dict(dsc, cmd="extract", vars=[variables[0]], T=float(T[0]), P=float(P[-1])))
@@ -382,18 +467,114 @@ def extract_cases(rng, n_dirs, per_dir):
     return out
 
 
+def round_step(x):
+    """a grid step rounded to two decimals — unless that would change it by more than 1 % (fine grids such as DELTA_P = 0.005 or
+    0.0625 would collapse to a constant or coarser axis): then the step is kept as it is"""
+    r = float(numpy.round(x, 2))
+    return r if r > 0 and abs(r - x) <= 0.01 * abs(x) else float(x)
+
+
+def tie_cases(rng, n):
+    """requests EXACTLY midway between two neighbouring grid values on grids with exactly representable labels:
+    |a - y| == |b - y| in floating point, numpy.argmin returns the first (lower) one"""
+    out = []
+    for _ in range(n):
+        g = {"NT": int(rng.integers(2, 8)), "DT": [50, 100, 25, 12.5][rng.integers(4)], "T_MIN": [0, 300, 250][rng.integers(3)],
+             "NTV": int(rng.integers(2, 8)), "DELTA_P": [0.5, 2.5, 5.0, 10.0, 0.25][rng.integers(5)], "P_MIN": [0.0, -5.0, 10.0, 1.5][rng.integers(4)]}
+        T, P = grid_axes(g)
+        dsc = {"grid": g, "data_seed": int(rng.integers(0, 2 ** 31)), "components": ["11", "12"], "keywords": ["cij_s", "bm_V", "v", "v_p"]}
+        for ax, key in ((T, "T"), (P, "P")):
+            i = int(rng.integers(len(ax) - 1))
+            y = 0.5 * (ax[i] + ax[i + 1])
+            assert abs(ax[i] - y) == abs(ax[i + 1] - y)
+            out.append(dict(dsc, cmd="extract", kind="tie", vars=["c11s", "bm_V", "v"][:int(rng.integers(1, 4))], **{key: float(y)}))
+    return out
+
+
+def thin_cases(rng, n):
+    """single-row, single-column and 1x1 tables, requests on / below / above the only label, both -T and -P"""
+    out = []
+    for k in range(n):
+        nt, ntv = [(1, int(rng.integers(2, 7))), (int(rng.integers(2, 7)), 1), (1, 1)][k % 3]
+        g = W.gen_grid(rng); g["NT"], g["NTV"] = nt, ntv
+        T, P = grid_axes(g)
+        dsc = {"grid": g, "data_seed": int(rng.integers(0, 2 ** 31)), "components": ["11", "44"], "keywords": ["cij_t", "bm_VRH", "v_s"]}
+        for key, ax in (("T", T), ("P", P)):
+            y = [ax[0], ax[0] - float(rng.uniform(0.1, 30.0)), ax[-1] + float(rng.uniform(0.1, 300.0)), float(pick_request(rng, ax))][int(rng.integers(4))]
+            out.append(dict(dsc, cmd="extract", kind="thin", vars=["c11t", "bm_VRH", "v_s"][:int(rng.integers(1, 4))], **{key: float(y)}))
+    return out
+
+
+def mixed_grid_cases(rng, n):
+    """one request over variables whose tables live on DIFFERENT grids (two runs written into one directory).  Outside the
+    property's quantifier (tables of one run share the grid): correspondence with the model only — the index is that of
+    the LAST variable, the others are aligned by label (NaN where the label is missing)."""
+    out = []
+    for _ in range(n):
+        g1 = {"NT": int(rng.integers(2, 7)), "DT": 100.0, "T_MIN": 0.0, "NTV": int(rng.integers(2, 6)), "DELTA_P": 10.0, "P_MIN": 0.0}
+        g2 = {"NT": int(rng.integers(2, 7)), "DT": [50.0, 100.0, 200.0][rng.integers(3)], "T_MIN": [0.0, 100.0][rng.integers(2)],
+              "NTV": int(rng.integers(2, 6)), "DELTA_P": [5.0, 10.0, 20.0][rng.integers(3)], "P_MIN": [0.0, 10.0][rng.integers(2)]}
+        base = {"grid": g1, "data_seed": int(rng.integers(0, 2 ** 31)), "components": ["11"], "keywords": ["cij_s", "bm_V"],
+                "second": {"grid": g2, "data_seed": int(rng.integers(0, 2 ** 31)), "components": [], "keywords": ["v_p", "v"]}}
+        vs = [["c11s", "v_p"], ["v", "bm_V"], ["bm_V", "v_p", "c11s", "v"]][int(rng.integers(3))]
+        T1, P1 = grid_axes(g1)
+        c = dict(base, cmd="extract", kind="mixed", vars=vs, oracle_skip=True)
+        if rng.random() < 0.5: c["T"] = float(pick_request(rng, T1))
+        else: c["P"] = float(pick_request(rng, P1))
+        out.append(c)
+    return out
+
+
+def twice_cases(rng, n):
+    """two invocations in ONE process, one after the other, in two DIFFERENT directories holding tables of the same
+    variables: each must answer from its own directory"""
+    out = []
+    for k in range(n):
+        dA, variables = gen_dir(rng, min_n=4)
+        dB = dict(dA, data_seed=int(rng.integers(0, 2 ** 31)))
+        same_grid = bool(rng.random() < 0.5)
+        if not same_grid:
+            g = dict(dA["grid"]); g["NT"] = max(4, int(rng.integers(4, 9))); g["NTV"] = max(4, int(rng.integers(4, 8))); g["T_MIN"] = g["T_MIN"] + 7.0
+            dB["grid"] = g
+        vs = [variables[i] for i in rng.permutation(len(variables))[:int(rng.integers(1, 4))]]
+        pair = []
+        for dsc in (dA, dB):
+            T, P = grid_axes(dsc["grid"])
+            if k % 2 == 0:
+                c = dict(dsc, cmd="extract", vars=vs)
+                if k % 4 == 0: c["T"] = float(T[len(T) // 2])
+                else: c["P"] = float(P[len(P) // 2])
+            else:
+                for key in ("DT", "DELTA_P"): dsc["grid"][key] = round_step(dsc["grid"][key])
+                T, P = grid_axes(dsc["grid"])
+                npts = 3
+                Tg = [float(numpy.round(T[int(rng.integers(len(T)))], 6)) for _ in range(npts)]
+                Pg = [float(numpy.round(P[int(rng.integers(len(P)))], 6)) for _ in range(npts)]
+                c = dict(dsc, cmd="geotherm", kind="nodes", vars=vs, geo_names=["P", "T"], geo_cols=[Pg, Tg], labels_from_file=True)
+            pair.append(c)
+        out.append({"check": "twice", "same_grid": same_grid, "cases": pair})
+    return out
+
+
 def geotherm_node_cases(rng, n_dirs, per_dir):
     out = []
     for _ in range(n_dirs):
         dsc, variables = gen_dir(rng, min_n=4)
-        dsc["grid"]["DT"] = float(numpy.round(dsc["grid"]["DT"], 2)); dsc["grid"]["DELTA_P"] = float(numpy.round(dsc["grid"]["DELTA_P"], 2))
+        dsc["grid"]["DT"] = round_step(dsc["grid"]["DT"]); dsc["grid"]["DELTA_P"] = round_step(dsc["grid"]["DELTA_P"])
         d = tempfile.mkdtemp(prefix="c19g_")
         try:
             make_dir(dict(dsc), d)
             tabs = parse_tables(d)
         finally:
             shutil.rmtree(d, ignore_errors=True)
-        rows, cs, _ = next(iter(tabs.values()))          # the labels as printed in the files are the nodes
+        rows, cs, _ = next(t for n, t in sorted(tabs.items()) if "_tp_" in n)          # the labels as printed in the files are the nodes
+        # a path along the rim of the window: last T row, last P column, first row, first column, the four corners
+        mid_t = [rows[int(rng.integers(len(rows)))] for _ in range(4)]
+        mid_p = [cs[int(rng.integers(len(cs)))] for _ in range(4)]
+        Tg = [rows[-1], mid_t[0], rows[0], mid_t[1], rows[0], rows[0], rows[-1], rows[-1], rows[-1], mid_t[2]]
+        Pg = [mid_p[0], cs[-1], mid_p[1], cs[0], cs[0], cs[-1], cs[0], cs[-1], mid_p[2], cs[-1]]
+        out.append(dict(dsc, cmd="geotherm", kind="nodes", edges=True, vars=[variables[i] for i in rng.permutation(len(variables))[:2]],
+                        geo_names=["T", "P"], geo_cols=[Tg, Pg]))
         for _ in range(per_dir):
             n = int(rng.integers(1, 9))
             Tg = [rows[rng.integers(len(rows))] for _ in range(n)]
@@ -414,7 +595,45 @@ def geotherm_node_cases(rng, n_dirs, per_dir):
                 c["tcol"], c["pcol"] = "Pres", "Temp"
             c["geo_names"] = [o[0] for o in order]; c["geo_cols"] = [o[1] for o in order]
             if rng.random() < 0.15: c["hide"] = True
+            if rng.random() < 0.15: c["via_group"] = True
             out.append(c)
+    return out
+
+
+NICE = {"DT": [25.0, 50.0, 100.0, 125.0, 37.5], "T_MIN": [0.0, 300.0, 250.0], "DELTA_P": [0.5, 2.5, 5.0, 10.0, 0.25, 1.0],
+        "P_MIN": [0.0, -5.0, 10.0, 1.5]}     # labels exactly representable and printed exactly by the writer
+
+
+def poly_cases(rng, n):
+    """tables that ARE polynomials of degree <= 3 in T and in P (written by the real writer on uniform grids with exactly
+    printed labels, or written directly on NON-uniform axes), geotherm points anywhere inside the window (and some nodes):
+    the interpolating bicubic spline reproduces them to rounding.  Sizes from 4x4 (one polynomial piece) upwards."""
+    out = []
+    for k in range(n):
+        shape = [(4, 4), (4, int(rng.integers(5, 9))), (int(rng.integers(5, 10)), 4), (int(rng.integers(5, 12)), int(rng.integers(5, 10)))][k % 4]
+        seed = int(rng.integers(0, 2 ** 31))
+        npts = int(rng.integers(4, 12))
+        vs = [["bm_V", "G_VRH", "v_s"], ["v_p"], ["bm_R", "v"]][int(rng.integers(3))]
+        if k % 3 != 2:
+            g = {"NT": shape[0], "NTV": shape[1]}
+            for key, vals in NICE.items(): g[key] = vals[int(rng.integers(len(vals)))]
+            T, P = grid_axes(g)
+            c = {"grid": g, "data_seed": 1, "components": ["11"], "keywords": sorted(set(VAR_KEYWORD[v] for v in vs)), "poly_seed": seed}
+        else:
+            T = numpy.sort(numpy.round(rng.uniform(0.0, 3000.0, size=shape[0]), 2)); P = numpy.sort(numpy.round(rng.uniform(-10.0, 200.0, size=shape[1]), 3))
+            while numpy.min(numpy.diff(T)) < 20.0: T = numpy.sort(numpy.round(rng.uniform(0.0, 3000.0, size=shape[0]), 2))
+            while numpy.min(numpy.diff(P)) < 1.0: P = numpy.sort(numpy.round(rng.uniform(-10.0, 200.0, size=shape[1]), 3))
+            T, P = [float(x) for x in T], [float(x) for x in P]
+            direct = {}
+            for v in vs:
+                kk = value_k(v)
+                d = W.DOC_BY_KW[VAR_KEYWORD[v]]
+                direct[f"{d[1]}_tp_{d[2]}.txt"] = {"rows": T, "cols": P, "k": kk, "vals": [[poly_f(t, p, kk, seed) for p in P] for t in T]}
+            c = {"grid": None, "direct": direct, "poly_seed": seed}
+        Tg = [float(numpy.round(rng.uniform(T[0], T[-1]), 3)) for _ in range(npts)] + [T[int(rng.integers(len(T)))], T[-1], T[0]]
+        Pg = [float(numpy.round(rng.uniform(P[0], P[-1]), 3)) for _ in range(npts)] + [P[int(rng.integers(len(P)))], P[-1], P[0]]
+        Tg = [min(max(t, T[0]), T[-1]) for t in Tg]; Pg = [min(max(p, P[0]), P[-1]) for p in Pg]
+        out.append(dict(c, cmd="geotherm", kind="poly", vars=vs, geo_names=["P", "T"], geo_cols=[Pg, Tg]))
     return out
 
 
@@ -436,22 +655,25 @@ def crossed_cases(rng, n):
     return out
 
 
-def convergence_cases(rng, n):
-    """the same geotherm on tables of one smooth function at two resolutions"""
+LATTICE = [0.013 + (0.987 - 0.013) * i / 22.0 for i in range(23)]     # 23 x 23 points, none on a node of any level
+
+
+def convergence_cases(rng, n, levels=2):
+    """the same dense path (fixed 23 x 23 lattice inside the window) on tables of one smooth function at `levels`
+    resolutions, the spacing halved from one to the next"""
     out = []
-    for _ in range(n):
-        m = int(rng.integers(5, 8))
-        coarse = {"NT": m, "DT": 1200.0 / (m - 1), "T_MIN": 300.0, "NTV": m, "DELTA_P": 120.0 / (m - 1), "P_MIN": 0.0}
-        fine = {"NT": 2 * m - 1, "DT": 600.0 / (m - 1), "T_MIN": 300.0, "NTV": 2 * m - 1, "DELTA_P": 60.0 / (m - 1), "P_MIN": 0.0}
-        npts = 12
-        Tg = [float(numpy.round(rng.uniform(320.0, 1480.0), 3)) for _ in range(npts)]
-        Pg = [float(numpy.round(rng.uniform(2.0, 118.0), 3)) for _ in range(npts)]
+    Tg = [float(numpy.round(300.0 + 1200.0 * a, 6)) for b in LATTICE for a in LATTICE]
+    Pg = [float(numpy.round(120.0 * b, 6)) for b in LATTICE for a in LATTICE]
+    ms = [int(x) for x in rng.permutation([5, 6, 7, 8])[:n]]
+    for m in ms:
         vs = ["bm_V", "G_VRH", "v_s"]
-        pair = []
-        for g in (coarse, fine):
-            pair.append({"grid": g, "data_seed": 1, "components": ["11"], "keywords": ["bm_V", "G_VRH", "v_s"], "smooth": True,
-                         "cmd": "geotherm", "kind": "smooth", "vars": vs, "geo_names": ["P", "T"], "geo_cols": [Pg, Tg]})
-        out.append(pair)
+        series = []
+        for lev in range(levels):
+            nn = (m - 1) * 2 ** lev + 1
+            g = {"NT": nn, "DT": 1200.0 / (nn - 1), "T_MIN": 300.0, "NTV": nn, "DELTA_P": 120.0 / (nn - 1), "P_MIN": 0.0}
+            series.append({"grid": g, "data_seed": 1, "components": ["11"], "keywords": ["bm_V", "G_VRH", "v_s"], "smooth": True,
+                           "cmd": "geotherm", "kind": "smooth", "vars": vs, "geo_names": ["P", "T"], "geo_cols": [Pg, Tg]})
+        out.append(series)
     return out
 
 
@@ -505,72 +727,210 @@ def run_cases(ctx, cases, res, with_model=True):
         compare_model(res, pending, ctx.driver.ask(ops))
 
 
-def convergence(ctx, pairs, res: Result):
-    worst = []
-    for coarse, fine in pairs:
-        run_cases(ctx, [coarse, fine], res, with_model=False)
-        ec, ef = coarse.get("_errors"), fine.get("_errors")
-        if not ec or not ef: continue
-        for k, (a, b) in enumerate(zip(ec, ef)):
-            worst.append({"var": coarse["vars"][k], "coarse_h": [coarse["grid"]["DT"], coarse["grid"]["DELTA_P"]], "err_coarse": a, "err_fine": b})
-            if not (b < a or a < 1e-9) or b > 0.5:
+def light(case):
+    """payload without run-time keys"""
+    return {k: v for k, v in case.items() if not k.startswith("_")}
+
+
+def convergence(ctx, series_list, res: Result):
+    worst = res.extra.setdefault("convergence", [])
+    for series in series_list:
+        series = [dict(c) for c in series]
+        run_cases(ctx, series, res, with_model=False)
+        errs = [c.get("_errors") for c in series]
+        if any(not e for e in errs): continue
+        for k, var in enumerate(series[0]["vars"]):
+            e = [x[k] for x in errs]
+            sc = 100.0
+            ratios = [a / b if b > 0 else float("inf") for a, b in zip(e, e[1:])]
+            worst.append({"var": var, "nodes_per_axis": [c["grid"]["NT"] for c in series], "errors": e, "ratios": ratios})
+            st = res.distribution.setdefault("refinement", {"series": 0, "min_ratio": None})
+            st["series"] += 1
+            fin = [r for r in ratios if r != float("inf")]
+            if fin: st["min_ratio"] = min(fin) if st["min_ratio"] is None else min(st["min_ratio"], min(fin))
+            payload = jsonable({"check": "convergence", "series": [light(c) for c in series]})
+            for (a, b), r in zip(zip(e, e[1:]), ratios):
+                if a <= 1e-9 * sc: continue                    # already at rounding level
+                if not (b < a) or b > 0.5:
+                    res.oracle_failures.append(OracleFailure(
+                        what="between nodes the interpolated value does not converge to the smooth function under refinement",
+                        input=payload, observed={"errors": e}, expected="error shrinks at every halving of the spacing and is <= 0.5 (scale ~100)",
+                        site="geotherm:convergence")); break
+                if r < ORDER_RATIO:
+                    res.oracle_failures.append(OracleFailure(
+                        what="between nodes the error of the interpolated value shrinks by less than 8 per halving of the grid spacing "
+                             "(the interpolating bicubic spline is fourth order: 16)",
+                        input=payload, observed={"errors": e, "ratios": ratios}, expected=f"ratio >= {ORDER_RATIO}",
+                        site="geotherm:convergence-order")); break
+    del worst[12:]
+
+
+def run_twice(ctx, items, res: Result):
+    """each item: two cases run back to back in this process; a failure of either is reported with the PAIR as replay"""
+    for it in items:
+        if ctx.time_left() < 45: break
+        sub = Result()
+        cases = [dict(c) for c in it["cases"]]
+        for c in cases:
+            if c.get("labels_from_file"):      # geotherm through nodes: take the nodes from the labels as printed
+                d = tempfile.mkdtemp(prefix="c19t_")
+                try:
+                    make_dir(c, d); tabs = parse_tables(d)
+                finally:
+                    shutil.rmtree(d, ignore_errors=True)
+                rows, cs, _ = next(t for n, t in sorted(tabs.items()) if "_tp_" in n)
+                c["geo_cols"] = [[min(cs, key=lambda x: abs(x - p)) for p in c["geo_cols"][0]], [min(rows, key=lambda x: abs(x - t)) for t in c["geo_cols"][1]]]
+        ops, pending = [], []
+        run_case(ctx, cases[0], sub, ops, pending, with_model=False)
+        for f in sub.oracle_failures:           # the FIRST call of a pair fails on its own: an ordinary failure of that case
+            if len(res.oracle_failures) < 12 and f.site not in {x.site for x in res.oracle_failures}: res.oracle_failures.append(f)
+        sub.oracle_failures = []
+        run_case(ctx, cases[1], sub, ops, pending, with_model=False)
+        res.evaluations += sub.evaluations
+        st = res.distribution.setdefault("twice", {"pairs": 0, "same_grid": 0, "different_grid": 0, "extract": 0, "geotherm": 0})
+        st["pairs"] += 1; st["same_grid" if it.get("same_grid") else "different_grid"] += 1; st[cases[0]["cmd"]] += 1
+        for k, v in sub.distribution.get("errors", {}).items():
+            res.distribution.setdefault("errors", {}).setdefault(k, 0); res.distribution["errors"][k] += v
+        for f in sub.oracle_failures:
+            if len(res.oracle_failures) < 12 and ("twice:" + f.site) not in {x.site for x in res.oracle_failures}:
                 res.oracle_failures.append(OracleFailure(
-                    what="between nodes the interpolated value does not converge to the smooth function under refinement",
-                    input=jsonable({"check": "convergence", "coarse": {k2: v for k2, v in coarse.items() if not k2.startswith("_")},
-                                    "fine": {k2: v for k2, v in fine.items() if not k2.startswith("_")}}),
-                    observed={"err_coarse": a, "err_fine": b}, expected="err_fine < err_coarse and err_fine <= 0.5 (scale ~100)",
-                    site="geotherm:convergence"))
-    res.extra["convergence"] = worst[:12]
+                    what="second invocation in the same process (other directory): " + f.what,
+                    input=jsonable({"check": "twice", "same_grid": it.get("same_grid"), "cases": [light(c) for c in it["cases"]]}),
+                    observed=f.observed, expected=f.expected, site="twice:" + f.site))
+
+
+def src_argmin_ops(ctx, rng, res, n):
+    """the expression tree read from `y_index = …` on this run, evaluated by the model, against numpy on the same arrays"""
+    ops, want = [], []
+    for _ in range(n):
+        m = int(rng.integers(1, 9))
+        xs = numpy.round(rng.uniform(-5, 5, size=m), 1)
+        y = float(numpy.round(rng.uniform(-6, 6), 1)) if rng.random() < 0.6 else float(0.5 * (xs[0] + xs[-1]))
+        ops.append({"op": "c19.src_argmin", "xs": enc(xs), "y": f2b(y)})
+        want.append(int(numpy.argmin(numpy.abs(xs - y))))
+    for op, a, w in zip(ops, ctx.driver.ask(ops), want):
+        res.evaluations += 1
+        if a == w: res.traces_validated += 1
+        else: res.disagreements.append(Disagreement("c19.src_argmin", op, w, a))
+
+
+def bicubic44_ops(ctx, rng, res, n):
+    """the model's 4x4 spline against scipy's RectBivariateSpline itself (contract measurement of the external call)"""
+    from scipy.interpolate import RectBivariateSpline
+    ops, want = [], []
+    for _ in range(n):
+        x = numpy.sort(rng.uniform(0.0, 3000.0, size=4)); y = numpy.sort(rng.uniform(-10.0, 200.0, size=4))
+        if numpy.min(numpy.diff(x)) < 30.0 or numpy.min(numpy.diff(y)) < 2.0: continue
+        z = rng.normal(100.0, 40.0, size=(4, 4))
+        px = rng.uniform(x[0], x[-1], size=6); py = rng.uniform(y[0], y[-1], size=6)
+        ops.append({"op": "c19.bicubic44", "xs": enc(x), "ys": enc(y), "z": enc(z), "px": enc(px), "py": enc(py)})
+        want.append(RectBivariateSpline(x, y, z)(px, py, grid=False))
+    bad = 0
+    for op, a, w in zip(ops, ctx.driver.ask(ops), want):
+        res.evaluations += 1
+        if close(dec(a), w, 1e-8, 300.0): res.traces_validated += 1
+        else:
+            bad += 1
+            if bad <= 3: res.contract_failures.append(f"RectBivariateSpline on a 4x4 table differs from the bicubic polynomial through it: {jsonable(w)} vs {jsonable(dec(a))}")
+    res.distribution["spline44_vs_scipy"] = {"tables": len(ops), "differing": bad}
+
+
+def request_stats(cases, res):
+    req = {"on": 0, "between": 0, "beyond": 0, "tie_exact": 0}
+    shapes = {"single_row": 0, "single_col": 0, "1x1": 0, "other": 0}
+    edge = {"last_T_row": 0, "last_P_col": 0, "first_T_row": 0, "first_P_col": 0, "corner": 0}
+    mixed = 0
+    for c in cases:
+        g = c.get("grid")
+        if c["cmd"] == "extract" and not c.get("expect_error") and g is not None:
+            T, P = grid_axes(g)
+            y, ax = (c["T"], T) if c.get("T") is not None else (c["P"], P)
+            req["on" if y in ax else ("beyond" if (y < ax[0] or y > ax[-1]) else "between")] += 1
+            if any(a < y < b and abs(a - y) == abs(b - y) for a, b in zip(ax, ax[1:])): req["tie_exact"] += 1
+            key = "1x1" if (g["NT"] == 1 and g["NTV"] == 1) else "single_row" if g["NT"] == 1 else "single_col" if g["NTV"] == 1 else "other"
+            shapes[key] += 1
+            if c.get("second"): mixed += 1
+        if c["cmd"] == "geotherm" and c.get("edges"):
+            Tg = c["geo_cols"][c["geo_names"].index("T")]; Pg = c["geo_cols"][c["geo_names"].index("P")]
+            t0, t1, p0, p1 = min(Tg), max(Tg), min(Pg), max(Pg)
+            for t, p in zip(Tg, Pg):
+                et, ep = t in (t0, t1), p in (p0, p1)
+                if et and ep: edge["corner"] += 1
+                else:
+                    if t == t1: edge["last_T_row"] += 1
+                    if t == t0: edge["first_T_row"] += 1
+                    if p == p1: edge["last_P_col"] += 1
+                    if p == p0: edge["first_P_col"] += 1
+    res.distribution["extract_requests"] = req
+    res.distribution["extract_table_shapes"] = shapes
+    res.distribution["geotherm_edge_points"] = edge
+    res.distribution["mixed_grids"] = mixed
 
 
 def run(ctx: Ctx) -> Result:
     res = Result()
     rng = ctx.rng
     res.rule = ("a case = (directory of tables written by the real writer on a random grid with random components, one command line: "
-                "extract -v VARS -T t | -P p [-h] or extract-geotherm -g FILE -v VARS [--t-col --p-col] [-h]); requests on / between "
-                "(incl. exact midpoints) / beyond the grid; non-trivial = valid request (not in the malformed stream)")
+                "extract -v VARS -T t | -P p [-h] or extract-geotherm -g FILE -v VARS [--t-col --p-col] [-h], a part through the `cij` group); "
+                "requests on / between (incl. exact midpoints = ties) / beyond the grid; single-row / single-column tables; geotherm points on "
+                "the rim of the window; pairs of invocations in one process in two directories; bicubic tables; non-trivial = valid request "
+                "(not in the malformed stream)")
     for payload in ctx.corpus():
-        run_cases(ctx, [payload.get("input", payload)], res)
+        replay_into(ctx, payload.get("input", payload), res)
     th = ctx.thorough()
     glob_ops(ctx, res)
     argmin_ops(ctx, rng, res, 200 if not th else 3000)
+    src_argmin_ops(ctx, rng, res, 200 if not th else 3000)
+    bicubic44_ops(ctx, rng, res, 40 if not th else 400)
+    # first thing that touches the commands: pairs of invocations in two directories (state kept between calls shows here
+    # with a self-contained replay; afterwards it would spoil every later case)
+    run_twice(ctx, twice_cases(rng, 6 if not th else 24), res)
     cases = extract_cases(rng, 10 if not th else 40, 12 if not th else 16)
+    cases += tie_cases(rng, 6 if not th else 30)
+    cases += thin_cases(rng, 6 if not th else 30)
+    cases += mixed_grid_cases(rng, 6 if not th else 30)
     cases += geotherm_node_cases(rng, 6 if not th else 30, 8 if not th else 10)
     cases += crossed_cases(rng, 4 if not th else 30)
+    cases += poly_cases(rng, 12 if not th else 80)
     run_cases(ctx, cases, res)
-    convergence(ctx, convergence_cases(rng, 3 if not th else 10), res)
+    convergence(ctx, convergence_cases(rng, 2 if not th else 4, levels=2 if not th else 3), res)
     res.distinct_nontrivial = sum(1 for c in cases if not (c.get("expect_error") or c.get("oracle_skip")))
     for c in cases[:2] + [c for c in cases if c["cmd"] == "geotherm"][:2]:
         res.samples.append({k: v for k, v in c.items() if k in ("cmd", "kind", "grid", "vars", "T", "P", "geo_names", "geo_cols", "tcol", "pcol")})
-    req = {"on": 0, "between": 0, "beyond": 0}
-    for c in cases:
-        if c["cmd"] == "extract" and not c.get("expect_error"):
-            T, P = grid_axes(c["grid"])
-            y, ax = (c["T"], T) if c.get("T") is not None else (c["P"], P)
-            req["on" if y in ax else ("beyond" if (y < ax[0] or y > ax[-1]) else "between")] += 1
-    res.distribution["extract_requests"] = req
+    request_stats(cases, res)
     res.notes.append("geotherm options: --t-col names the PRESSURE column and --p-col the TEMPERATURE column (as their help strings say; "
                      "defaults P and T); passing the names the other way round evaluates the table at (x=P, y=T) — see Lean geotherm_named_columns")
+    res.notes.append("geotherm:bicubic-exact and geotherm:convergence-order demand that the spline be the interpolating BICUBIC spline (fourth order), "
+                     "which is what the model's contract assumes; a lower-order interpolant that still converges would be reported by them")
     return res
 
 
 def search(ctx: Ctx, res: Result):
     extra = Result()
     rng = numpy.random.Generator(numpy.random.PCG64([ctx.seed, 1919]))
+    run_twice(ctx, twice_cases(rng, 6), extra)
     for d in res.disagreements[:5]:
         if isinstance(d.input, dict) and d.input.get("cmd"):
             run_cases(ctx, [d.input], extra, with_model=False)
     if not extra.oracle_failures:
-        run_cases(ctx, extract_cases(rng, 10, 12) + geotherm_node_cases(rng, 8, 8), extra, with_model=False)
+        run_cases(ctx, extract_cases(rng, 10, 12) + tie_cases(rng, 10) + thin_cases(rng, 9) + geotherm_node_cases(rng, 8, 8) + poly_cases(rng, 16),
+                  extra, with_model=False)
     if not extra.oracle_failures:
-        convergence(ctx, convergence_cases(rng, 4), extra)
+        convergence(ctx, convergence_cases(rng, 3, levels=3), extra)
     return extra.oracle_failures
+
+
+def replay_into(ctx: Ctx, payload, res: Result, with_model=True):
+    if payload.get("check") == "convergence":
+        series = payload.get("series") or [payload["coarse"], payload["fine"]]
+        convergence(ctx, [[dict(c) for c in series]], res)
+    elif payload.get("check") == "twice":
+        run_twice(ctx, [payload], res)
+    else:
+        run_cases(ctx, [dict(payload)], res, with_model=with_model)
 
 
 def replay(ctx: Ctx, payload):
     res = Result()
-    if payload.get("check") == "convergence":
-        convergence(ctx, [(dict(payload["coarse"]), dict(payload["fine"]))], res)
-    else:
-        run_cases(ctx, [dict(payload)], res, with_model=False)
+    replay_into(ctx, payload, res, with_model=False)
     return res.oracle_failures
